@@ -782,7 +782,7 @@ fn export<'tcx>(tcx: TyCtxt<'tcx>) -> J {
                 tcx.impl_of_assoc(did).map(|i| tcx.is_automatically_derived(i)).unwrap_or(false)));
         }
         bodies.push(bj);
-        if !is_const_ctx {
+        {
             let proms = tcx.promoted_mir(did);
             for (pi, pb) in proms.iter_enumerated() {
                 let ex = Ex { tcx, body: pb, owner: did };
